@@ -30,14 +30,16 @@ Section Arrays.
   Variable nm : names.
   Variable env : penv.
   Variable rec : list token -> presult.
+  Variable pol : policy.
+  Hypothesis Hneg_num : forall n, pol_neg pol (ENum n) = false.
 
   Notation colsep := (sep_token (parse_arg_sep m)).
 
   Lemma print_col_sep_same : print_col_sep m = parse_arg_sep m.
   Proof. reflexivity. Qed.
 
-  Lemma print_ast_of_aelem a : print m nm (ast_of_aelem a) = print_aelem nm a.
-  Proof. destruct a as [b|[|] n|s|k|]; reflexivity. Qed.
+  Lemma print_ast_of_aelem a : gprint m nm pol (ast_of_aelem a) = print_aelem nm a.
+  Proof. destruct a as [b|[|] n|s|k|]; try reflexivity. cbn [ast_of_aelem gprint]. rewrite Hneg_num. reflexivity. Qed.
 
   Lemma to_aelem_of a : aelem_ok nm a = true -> to_aelem (ast_of_aelem a) = Some a.
   Proof. destruct a as [b|[|] n|s|k|]; try reflexivity. discriminate. Qed.
